@@ -175,3 +175,61 @@ class _Concrete(CFG):
         self.inprog.discard(key)
         self.memo[key] = res
         return res
+
+
+def first_offending_index(nfas, root, seq):
+    """Earley-style recognition over the per-rule NFAs: the smallest k such that seq[:k+1] is not a prefix of any sentence
+    derivable from `root` (None if the whole sequence is a viable prefix).  seq are token types; EOF (0) is an ordinary token."""
+    out = {}
+    for r, m in nfas.items():
+        o = {}
+        for a, l, b in m.edges:
+            for v in l[1]:
+                o.setdefault(a, []).append((v, b))
+        out[r] = o
+    nullable = CFG(nfas, [], "n").nullable
+
+    def closure(items, k, chart):
+        """items: set of (rule, state, origin); predict + complete"""
+        work = list(items)
+        seen = set(items)
+        while work:
+            (r, s_, o) = work.pop()
+            for v, b in out[r].get(s_, ()):
+                if v >= RULE_BASE:
+                    q = v - RULE_BASE
+                    it = (q, nfas[q].start, k)
+                    if it not in seen:
+                        seen.add(it)
+                        work.append(it)
+                    if q in nullable:
+                        it2 = (r, b, o)
+                        if it2 not in seen:
+                            seen.add(it2)
+                            work.append(it2)
+            if s_ in nfas[r].accept:
+                # complete: advance every item in chart[o] waiting for rule r
+                src = chart[o] if o < k else seen
+                for (r2, s2, o2) in list(src):
+                    for v, b in out[r2].get(s2, ()):
+                        if v == RULE_BASE + r:
+                            it = (r2, b, o2)
+                            if it not in seen:
+                                seen.add(it)
+                                work.append(it)
+        return seen
+
+    chart = []
+    cur = closure({(root, nfas[root].start, 0)}, 0, chart)
+    chart.append(cur)
+    for k, tok in enumerate(seq):
+        nxt = set()
+        for (r, s_, o) in cur:
+            for v, b in out[r].get(s_, ()):
+                if v < RULE_BASE and v == tok:
+                    nxt.add((r, b, o))
+        if not nxt:
+            return k
+        cur = closure(nxt, k + 1, chart)
+        chart.append(cur)
+    return None
